@@ -278,6 +278,17 @@ pub fn compare(rt: &Runtime<NoCtx>, drv: &mut Driver, what: &str, src: &str, sex
             "ok-unsolved".into()
         }
         (Outcome::Ok, m) => {
+            // the model rejects, the checker accepts: if the documented rules reject the
+            // script too, this IS the property failing on the real code
+            let d = drv.ask(&format!("c07 prog {sexp}"));
+            if let (Some(rule), Some(class)) = (d.strip_prefix("err "), m.strip_prefix("err ")) {
+                let kind = id["kind"].as_str().or(id["rep"].as_str()).unwrap_or("script").to_string();
+                rep.violation(
+                    &format!("an ill-typed script (declarative rule `{rule}`, inference model `{class}`) passed the type checker"),
+                    &format!("accepted:infer:{class}:{rule}"),
+                    json!({"kind": kind, "rule": rule, "src": src, "sexp": sexp, "model": m, "id": id}),
+                );
+            }
             rep.mismatch(&format!("the type checker accepts a script the inference model rejects (`{m}`)"), input);
             "model-rejects-only".into()
         }
